@@ -126,7 +126,7 @@ fn main() {
                 run.distinct(&k);
             }
             run.count(&format!("menu-size={:02}", edges.len()));
-            if edges.len() >= 3 && sweep.len() < 6 && weights.iter().any(|w| (*w - weights[0]).abs() > 0.02) && !sweep.iter().any(|(b, _)| *b == bucket) {
+            if edges.len() >= 2 && sweep.len() < 4000 && !sweep.iter().any(|(b, _)| *b == bucket) {
                 sweep.push((bucket.clone(), weights.clone()));
             }
         }
@@ -134,31 +134,84 @@ fn main() {
     // ---- 2. epochs swept at fixed buckets: unbiased draw + model prediction per epoch
     let nsweep: usize = if a.thorough() { 100_000 } else { 12_000 };
     // find a node for each sweep bucket in a fresh tree is not needed: rebuild nodes by sampling trees until found
+    // prefer large, non-uniform menus; root-level (empty history) buckets are found again quickly
+    let spread = |w: &Vec<f32>| -> f32 { w.iter().cloned().fold(0.0f32, f32::max) - w.iter().cloned().fold(1.0f32, f32::min) };
+    sweep.sort_by(|a, b| {
+        let ka = (u64::from(a.0 .0) != 0, -(a.1.len() as i64), -(spread(&a.1) * 1000.0) as i64);
+        let kb = (u64::from(b.0 .0) != 0, -(b.1.len() as i64), -(spread(&b.1) * 1000.0) as i64);
+        ka.cmp(&kb)
+    });
     let mut found = 0;
     let mut guard = 0;
-    while found < sweep.len().min(3) && guard < 400 {
+    while found < sweep.len().min(3) && guard < 4000 {
         guard += 1;
         let tree = bp.verif_tree();
         let epoch0 = profile.read().unwrap().epochs();
         let target = sweep[found].0.clone();
         let node = tree.all().into_iter().find(|n| !n.children().is_empty() && *n.bucket() == target);
-        let node = match node { Some(n) => n, None => continue };
+        let node = match node { Some(n) => n, None => { if guard % 200 == 199 { sweep.remove(found); } continue } };
         let weights: Vec<f32> = {
             let p = profile.read().unwrap();
             Vec::<Edge>::from(target.2.clone()).iter().map(|e| p.weight(&target, e)).collect()
         };
         let mut hist = vec![0u64; weights.len()];
-        for e in 0..nsweep {
-            profile.write().unwrap().verif_set_epochs(e);
-            let p = profile.read().unwrap();
-            let got = catch(std::panic::AssertUnwindSafe(|| one(&p, &enc, &node))).flatten();
-            run.evaluations += 1;
-            if e < 3000 {
-                let op = format!("one {} {} {}", e, key(&target), weights.iter().map(|w| w.to_bits().to_string()).collect::<Vec<_>>().join(" "));
-                run.line(&op, &match got { Some(i) => i.to_string(), None => "panic".into() });
+        // persistent workers with their own sampling history + fresh threads + trace-level logging:
+        // the model predicts every answer, whoever asks and whatever the logging level is
+        let (qtx, qrx): (Vec<_>, Vec<_>) = (0..3).map(|_| std::sync::mpsc::channel::<bool>()).unzip();
+        let (atx, arx) = std::sync::mpsc::channel::<(usize, Option<usize>)>();
+        std::thread::scope(|s| {
+            for (w, rx) in qrx.into_iter().enumerate() {
+                let atx = atx.clone();
+                let profile = profile.clone();
+                let enc = &enc;
+                let node = &node;
+                s.spawn(move || {
+                    while let Ok(go) = rx.recv() {
+                        if !go { break; }
+                        let p = profile.read().unwrap();
+                        let r = catch(std::panic::AssertUnwindSafe(|| one(&p, enc, node))).flatten();
+                        drop(p);
+                        atx.send((w, r)).unwrap();
+                    }
+                });
             }
-            if let Some(i) = got { hist[i] += 1; }
-        }
+            for e in 0..nsweep {
+                profile.write().unwrap().verif_set_epochs(e);
+                let tracing = e % 5 == 2;
+                if tracing { log::set_max_level(log::LevelFilter::Trace); }
+                let got = { let p = profile.read().unwrap(); catch(std::panic::AssertUnwindSafe(|| one(&p, &enc, &node))).flatten() };
+                run.evaluations += 1;
+                let op = format!("one {} {} {}", e, key(&target), weights.iter().map(|w| w.to_bits().to_string()).collect::<Vec<_>>().join(" "));
+                let show = |g: Option<usize>| match g { Some(i) => i.to_string(), None => "panic".into() };
+                if e < 3000 { run.line(&op, &show(got)); }
+                if e < 48 || e % 101 == 0 {
+                    // a long-lived worker (history: whatever epochs it was asked before) and a fresh thread
+                    let w = (e / 3) % 3;
+                    qtx[w].send(true).unwrap();
+                    let (_, ans) = arx.recv().unwrap();
+                    let fresh = std::thread::scope(|s2| s2.spawn(|| { let p = profile.read().unwrap(); catch(std::panic::AssertUnwindSafe(|| one(&p, &enc, &node))).flatten() }).join().unwrap_or(None));
+                    run.line(&op, &show(ans));
+                    run.line(&op, &show(fresh));
+                    run.evaluations += 2;
+                    run.spec_checked += 1;
+                    if ans != got || fresh != got {
+                        run.fail("choice-not-reproducible", &format!("{op} (main thread / long-lived worker {w} / fresh thread{})", if tracing { ", trace logging on" } else { "" }), &format!("{:?}", got), &format!("worker {:?}, fresh {:?}", ans, fresh));
+                    }
+                    run.count("asked-on-worker-and-fresh-thread");
+                }
+                if tracing {
+                    log::set_max_level(log::LevelFilter::Off);
+                    run.count("asked-with-trace-logging");
+                    let quiet = { let p = profile.read().unwrap(); catch(std::panic::AssertUnwindSafe(|| one(&p, &enc, &node))).flatten() };
+                    run.spec_checked += 1;
+                    if quiet != got {
+                        run.fail("choice-not-reproducible", &format!("{op} (asked with trace-level logging enabled, then disabled)"), &format!("{:?}", quiet), &format!("{:?}", got));
+                    }
+                }
+                if let Some(i) = got { hist[i] += 1; }
+            }
+            for tx in &qtx { let _ = tx.send(false); }
+        });
         profile.write().unwrap().verif_set_epochs(epoch0);
         run.spec_checked += 1;
         let total: f64 = weights.iter().map(|w| *w as f64).sum();
@@ -173,7 +226,7 @@ fn main() {
         run.count("epoch-sweeps");
         found += 1;
     }
-    if found == 0 { run.notes.push("no non-uniform bucket with >= 3 edges was found for the epoch sweep".into()); }
+    if found == 0 { run.fail("harness-could-not-run-epoch-sweep", "epoch sweep", "at least one bucket re-found in a fresh tree", "none"); }
     // ---- 3. explore_any on synthetic chance branch lists
     {
         let tree = bp.verif_tree();
